@@ -118,7 +118,7 @@ def _flagged(w, ev, slot, name, do, expected, oracle, approx=None,
         status, res = _call(lambda: do(slot.real, False))
         if status == 'fault':
             w.stats['fault.F1.fired'] += 1
-            w.expect_unchanged(slot, 'noninplace.receiver_changed',
+            w.expect_unchanged(slot, oracle + '.receiver_changed',
                                '%s(inplace=False) aborted by callback' % name)
             out.append('fault')
         elif status == 'exc':
@@ -136,7 +136,7 @@ def _flagged(w, ev, slot, name, do, expected, oracle, approx=None,
             if result is slot.real:
                 w.fail('noninplace.returned_self',
                        '%s(inplace=False) returned the receiver' % name)
-            w.expect_unchanged(slot, 'noninplace.receiver_changed',
+            w.expect_unchanged(slot, oracle + '.receiver_changed',
                                '%s(inplace=False)' % name)
             compare(result, '%s(inplace=False) result' % name)
             if post:
@@ -207,7 +207,7 @@ def _newtable(w, ev, slot, name, do, expected, oracle, args=(), adopt=None,
     if status == 'fault':
         w.stats['fault.F1.fired'] += 1
         for s in others:
-            w.expect_unchanged(s, 'newtable.input_changed',
+            w.expect_unchanged(s, oracle + '.input_changed',
                                '%s aborted by callback' % name)
         return name + ':fault'
     if status == 'exc':
@@ -223,7 +223,7 @@ def _newtable(w, ev, slot, name, do, expected, oracle, args=(), adopt=None,
         if res is s.real:
             w.fail('newtable.returned_input',
                    '%s returned one of its inputs' % name)
-        w.expect_unchanged(s, 'newtable.input_changed', name)
+        w.expect_unchanged(s, oracle + '.input_changed', name)
     if adopt is not None:
         exp = adopt(res)
     else:
@@ -292,7 +292,8 @@ def op_filter(w, ev, slot):
         names = [ids[i] for i in order]
         unknown = bool(ev.get('unk', 0))
         if unknown:
-            names.insert(ev.get('rot', 0) % (len(names) + 1), w.absent_id())
+            names.insert(ev.get('rot', 0) % (len(names) + 1),
+                         w.absent_like(ids, ev.get('unk', 1)))
         cont = ev.get('cont', 0) % 5
 
         def mkarg():
@@ -399,7 +400,8 @@ def op_sort_order(w, ev, slot):
     unknown = bool(ev.get('unk', 0))
     if unknown:
         w.stats['fault.F2.armed'] += 1
-        names[ev.get('salt', 0) % len(names)] = w.absent_id()
+        names[ev.get('salt', 0) % len(names)] = w.absent_like(
+            ref.ids[ax], ev.get('unk', 1))
         expected = ModelError('unknown id in order')
     else:
         expected = ref.take(ax, perm)
